@@ -290,6 +290,15 @@ func ociFacts(lf *leanFile) {
 		callList("content/oci/storage.go", "Storage", "ingest"),
 		callList("content/oci/storage.go", "Storage", "Delete"),
 	}, ",\n   ")+"]")
+	// the work claim shared by copyGraph, ExtendedCopyGraph and IndexAll
+	lf.def("trackerCalls", "List String", func() string {
+		row := callList("internal/status/tracker.go", "Tracker", "TryCommit")
+		// callList renders (name, [calls]); keep the list part
+		if i := strings.Index(row, "["); i >= 0 {
+			return strings.TrimSuffix(row[i:], ")")
+		}
+		return "[]"
+	}())
 	// the in-memory content store: check, verified read, commit
 	lf.def("casCalls", "List (String × List String)", "["+callList("internal/cas/memory.go", "Memory", "Push")+"]")
 }
